@@ -10,6 +10,7 @@ CONSTANTS
   KindSet = {"good", "dup", "qcfail", "notr1", "lowmq", "mp_multi", "good_s2", "good_k2", "mp_unique"}
   KwargsSet = {"none", "empty"}
   UseKeySet = {TRUE, FALSE}
+  NFiles = 1
   MaxRecs = 1
   Threads = 3
 INVARIANT Inv_C12_Total_NoRaise
